@@ -508,6 +508,9 @@ def line(d, hs_index, src, obs, fault=None):
     return sx([[d, [handler_sx(s) for s in HANDLER_SETS[hs_index]], SOURCES[src][1] != 0, fx], obs])
 
 
+COVERED = {"within": 0, "outside": 0}     # datagrams whose case satisfies port_validb (C09_port_covered_cases) / not
+
+
 def evaluate(cases, ports, exclog):
     """-> [(case, impl observations per item, model observations per item, clauses failed on the model, ... on impl)]"""
     cases = [c if len(c) == 4 else c + (None,) for c in cases]
@@ -517,15 +520,18 @@ def evaluate(cases, ports, exclog):
     outs = iter(common.run_model("c09port", lines))
     res = []
     for case, ol in zip(cases, obs):
-        ms, fm, fi = [], [], []
+        ms, fm, fi, covered = [], [], [], []
         for (d, src), o in zip(case[0], ol):
             out = next(outs)
             if out.startswith("!") or out.startswith("#"):
                 raise RuntimeError(f"c09port: driver rejected case {case!r} -> {out[:100]}")
             r = unsx(out)
             ms.append(r[0])
+            covered.append(len(r) > 4 and r[4] == 1)
             fm += [x for x in names(r[1]) if x not in fm]
             fi += [x for x in names(r[2]) if x not in fi]
+        COVERED["within"] += sum(covered)
+        COVERED["outside"] += len(covered) - sum(covered)
         res.append((case, ol, ms, fm, fi))
     return res
 
@@ -614,6 +620,7 @@ def port_checks(tier, rng, report):
     failing = []
     known_like = []
     out = []
+    COVERED["within"] = COVERED["outside"] = 0
     try:
         ports = [Port(specs) for specs in HANDLER_SETS]
         batch = []
@@ -653,6 +660,8 @@ def port_checks(tier, rng, report):
                 if len(failing) >= 5:
                     break
         flush()
+        stats["port_cases_within_theorem_hypotheses"] = COVERED["within"]
+        stats["port_cases_outside_theorem_hypotheses"] = COVERED["outside"]
         for (case, fi, o, m) in failing[:2]:
             small = shrink(case, ports, exclog, lambda c, f: bool(f) and not is_known_shape(c, f)) if fi else \
                 (case if len(case) == 4 else case + (None,))
